@@ -21,7 +21,7 @@ from .. import solve, sym
 from ..sarr import NpProxy, SArr, patched, sarr
 from ..sym import R, SymInt, real, symint
 from . import mineral_h as mh
-from .common import all_eq, eq, np_installed, pydrex_modules, sample
+from .common import all_eq, eq, np_installed, pydrex_modules, sample, only_path
 
 TIMEOUT_MS = {"quick": 60000, "thorough": 300000}
 
@@ -29,6 +29,7 @@ TIMEOUT_MS = {"quick": 60000, "thorough": 300000}
 def tasks(tier):
     t = [("t_keys", {}), ("t_roundtrip", {"postfixes": [None]}), ("t_roundtrip", {"postfixes": ["a"]}),
          ("t_roundtrip", {"postfixes": ["a", "b"]}), ("t_roundtrip", {"postfixes": ["7", None, "x_y"]}),
+         ("t_roundtrip", {"postfixes": [0, 1]}), ("t_roundtrip", {"postfixes": ["", "0"]}),
          ("t_corrupt", {}), ("t_filenames", {})]
     if tier == "thorough":
         t += [("t_roundtrip", {"postfixes": list(p)}) for p in it.permutations(["1", "2", "10"])]
@@ -208,7 +209,7 @@ def t_roundtrip(sess, postfixes):
         for ob in p.obligations:
             sess.prove(f"{pt}: {ob.kind} cannot happen", ob.pc, ob.cond)
         sess.satisfiable(f"{pt}: reach", p.pc)
-        want_keys = sorted(f"{n}{'' if pf is None else '_' + pf}" for pf in postfixes for n in ("meta", "fractions", "orientations"))
+        want_keys = sorted(f"{n}{'' if pf is None else '_' + str(pf)}" for pf in postfixes for n in ("meta", "fractions", "orientations"))
         if not (None in postfixes and len(postfixes) > 1):
             sess.prove(f"{pt}: the archive holds exactly the keys meta/fractions/orientations (+ '_postfix') of every saved mineral", p.pc,
                        z3.BoolVal(files.get("arch.npz") == want_keys))
@@ -281,7 +282,7 @@ def t_corrupt(sess):
 
             with _env(arch):
                 paths, _ = sym.explore(fn, catch=(Exception,))
-            p = paths[0]
+            p = only_path(sess, paths)
             if p.exc is not None:
                 sess.prove(f"corrupt [{label}, postfix {pf!r}]: unexpected {type(p.exc).__name__}: {str(p.exc)[:60]}", p.pc, z3.BoolVal(False))
                 continue
@@ -321,7 +322,7 @@ def t_filenames(sess):
 
             with _env(arch):
                 paths, _ = sym.explore(fn, catch=(Exception,))
-            p = paths[0]
+            p = only_path(sess, paths)
             if p.exc is not None:
                 sess.prove(f"filenames [{which} {nm!r}]: unexpected {type(p.exc).__name__}: {str(p.exc)[:60]}", p.pc, z3.BoolVal(False))
                 continue
@@ -330,3 +331,46 @@ def t_filenames(sess):
             sess.prove(f"filenames [{which} {nm!r}]: {'accepted' if want == 'ok' else 'rejected with ValueError before touching the archive'}", p.pc,
                        z3.BoolVal(outcome == want and (want == "ok" or not calls)))
     sess.satisfiable("filenames: reach", [good])
+
+
+def default_cex(name):
+    return {"replay": "vf.props.C17:replay_postfixes", "case": {}, "cls": {"kind": "save/load round trip fails"}}
+
+
+def replay_postfixes(case):
+    """Real files: several minerals under distinct postfixes (incl. 0, '', 'x_y'), both loaders, any order."""
+    import os
+    import tempfile
+
+    import numpy as np
+    import pydrex
+    from pydrex import core
+
+    d = tempfile.mkdtemp(prefix="c17_")
+    f = os.path.join(d, "m.npz")
+    problems = []
+    ms = {}
+    for i, pf in enumerate([0, "", "x_y", "7", 12]):
+        m = pydrex.Mineral(phase=i % 2, fabric=core.MineralFabric.olivine_B if i % 2 == 0 else core.MineralFabric.enstatite_AB,
+                           regime=core.DeformationRegime(i % 8), n_grains=3 + i, seed=i)
+        m.fractions.append(m.fractions[0][::-1].copy())
+        m.orientations.append(m.orientations[0][::-1].copy())
+        m.save(f, postfix=pf)
+        ms[pf] = m
+    for pf, m in reversed(list(ms.items())):
+        for which in ("from_file", "load"):
+            try:
+                if which == "from_file":
+                    b = pydrex.Mineral.from_file(f, postfix=pf)
+                else:
+                    b = pydrex.Mineral(n_grains=2, seed=99)
+                    b.load(f, postfix=pf)
+            except Exception as e:  # noqa: BLE001
+                problems.append(f"{which}(postfix={pf!r}) raised {type(e).__name__}: {e}")
+                continue
+            same = (int(b.phase), int(b.fabric), int(b.regime), int(b.n_grains)) == (int(m.phase), int(m.fabric), int(m.regime), int(m.n_grains)) \
+                and len(b.fractions) == len(m.fractions) and all(np.array_equal(x, y) for x, y in zip(b.fractions, m.fractions)) \
+                and all(np.array_equal(x, y) for x, y in zip(b.orientations, m.orientations))
+            if not same:
+                problems.append(f"{which}(postfix={pf!r}) did not restore the mineral")
+    return {"reproduced": bool(problems), "detail": problems[:5] or "all minerals recovered"}
